@@ -589,3 +589,729 @@ Proof.
 Qed.
 
 End Groups.
+
+(* ------------------------------------------------------------------ group composition (identity invariant) *)
+
+Lemma nth_upd_inv {A} (l : list A) i x j w :
+  nth_error (upd l i x) j = Some w -> (j = i /\ w = x) \/ (j <> i /\ nth_error l j = Some w).
+Proof.
+  revert i j; induction l; intros i j H.
+  - destruct i; simpl in H; destruct j; discriminate.
+  - destruct i; destruct j; simpl in *.
+    + inversion H; auto.
+    + right; split; auto.
+    + right; split; auto.
+    + destruct (IHl _ _ H) as [[-> ->]|[Hn Hj]]; auto.
+Qed.
+
+(* what a leader's local variables say about its group: batches = itself + the writers told true
+   (+ the one whose reply is being sent), and that one is really waiting for the reply *)
+Definition lead_ok (L : list writer) (l : nat) (p : wpc) : Prop :=
+  match p with
+  | WLReply c x => lbatches c = l :: lreplied c ++ [x] /\ exists wx, nth_error L x = Some wx /\ pc wx = WWaitMerged
+  | WLMerge c | WLJournal c | WLApply c | WLPublish c | WLRotate c => lbatches c = l :: lreplied c
+  | _ => True
+  end.
+
+Definition P2 (L : list writer) : Prop := forall l wl, nth_error L l = Some wl -> lead_ok L l (pc wl).
+
+Definition jok (r : jrecd) : Prop := j_batches r = j_leader r :: j_replied r.
+
+Lemma lead_ok_nonholder L l p : holdsp p = 0 -> lead_ok L l p.
+Proof. destruct p; simpl; auto; discriminate. Qed.
+
+Definition wm_stable (L L' : list writer) : Prop :=
+  forall x wx, nth_error L x = Some wx -> pc wx = WWaitMerged -> exists wx', nth_error L' x = Some wx' /\ pc wx' = WWaitMerged.
+
+Lemma lead_ok_frame L L' l p : lead_ok L l p -> wm_stable L L' -> lead_ok L' l p.
+Proof.
+  destruct p; simpl; auto. intros [Hb (wx & Hx & Hp)] Hs. split; auto. apply (Hs _ _ Hx Hp).
+Qed.
+
+Lemma wm_stable_upd L i w w' : nth_error L i = Some w -> pc w <> WWaitMerged -> wm_stable L (upd L i w').
+Proof.
+  intros Hi Hp x wx Hx Hpx. assert (x <> i) by (intros ->; rewrite Hi in Hx; inversion Hx; subst; auto).
+  exists wx. rewrite nth_upd_other; auto.
+Qed.
+
+Lemma P2_upd1 L i w w' : P2 L -> nth_error L i = Some w -> pc w <> WWaitMerged ->
+  lead_ok (upd L i w') i (pc w') -> P2 (upd L i w').
+Proof.
+  intros HP Hi Hp Hn l wl Hl. apply nth_upd_inv in Hl. destruct Hl as [[-> ->]|[Hne Hl]]; auto.
+  eapply lead_ok_frame; [apply HP; eauto|]. eapply wm_stable_upd; eauto.
+Qed.
+
+Lemma two_waiting_same s l wl i x wi wx : inv s ->
+  nth_error (ws s) l = Some wl -> holds wl = 1 -> replydue wl = 1 ->
+  nth_error (ws s) i = Some wi -> pc wi = WWaitMerged ->
+  nth_error (ws s) x = Some wx -> pc wx = WWaitMerged -> i = x.
+Proof.
+  intros Hv Hl H1 Hr Hi Hpi Hx Hpx. destruct (leader_sums s l wl Hv Hl H1) as [Hm _].
+  destruct (Nat.eq_dec i x); auto. exfalso.
+  pose proof (sumf_two mwait _ _ _ _ _ Hi Hx n). unfold mwait in H at 1 2. rewrite Hpi, Hpx in H. simpl in H. lia.
+Qed.
+
+Section Composition.
+Variable mp : mparams.
+
+Ltac other_nonholder Hv El Hh :=
+  match goal with
+  | Hne : ?j <> ?l0, Hj : nth_error (ws ?s) ?j = Some ?w |- lead_ok _ ?j (pc ?w) =>
+      apply lead_ok_nonholder;
+      destruct (only_leader s l0 _ Hv El Hh) as [Ho _]; apply (Ho j w Hne Hj)
+  end.
+
+Lemma step_P2 s a s' : inv s -> P2 (ws s) -> Forall jok (jlog s) -> step mp s a = Some s' ->
+  P2 (ws s') /\ Forall jok (jlog s').
+Proof.
+  intros Hv HP HJ H.
+  destruct a; unfold step, getw in H; dm; inversion H; subst; clear H;
+    cbn [ws jlog setw with_ws with_lock with_env with_logs]; (split; [|auto]).
+  all: try exact HP.
+  (* single-writer moves of a non-leader: every WWaitMerged writer stays *)
+  all: try (eapply P2_upd1; eauto; [congruence | exact I]).
+  (* single-writer moves of the leader: everybody else owns nothing *)
+  all: try (match goal with
+            | E : nth_error (ws ?s0) ?l = Some ?w, Ep : pc ?w = _ |- P2 (upd (ws ?s0) ?l _) =>
+                assert (Hh : holds w = 1) by (unfold holds; rewrite Ep; reflexivity);
+                pose proof (HP l w E) as Hlo; rewrite Ep in Hlo; cbn [lead_ok] in Hlo;
+                intros j wj Hj; apply nth_upd_inv in Hj; destruct Hj as [[-> ->]|[Hne Hj]];
+                [ cbn [pc set_pc lead_ok]; try destruct (wmerge w); cbn [lead_ok lbatches lreplied]; auto
+                | other_nonholder Hv E Hh ]
+            end).
+  (* journal log *)
+  all: try (apply Forall_app; split; auto; constructor; auto;
+            match goal with
+            | E : nth_error (ws ?s0) ?l = Some ?w, Ep : pc ?w = _ |- _ =>
+                pose proof (HP l w E) as Hlo; rewrite Ep in Hlo; cbn [lead_ok] in Hlo; exact Hlo
+            end).
+  - (* ASelMerge i l *)
+    assert (Hn : i <> l) by (apply (pcs_differ (ws s) i l w w0 E E0); congruence).
+    assert (Hh : holds w0 = 1) by (unfold holds; rewrite E2; reflexivity).
+    pose proof (HP l w0 E0) as Hlo; rewrite E2 in Hlo; cbn [lead_ok] in Hlo.
+    intros j wj Hj. apply nth_upd_inv in Hj. destruct Hj as [[-> ->]|[Hne Hj]].
+    + cbn [pc set_pc]. unfold merge_decide. destruct (llim c <? wsize w)%N; cbn [lead_ok lbatches lreplied]; auto.
+      split; [rewrite Hlo; reflexivity|]. exists (set_pc w WWaitMerged). split; auto.
+      rewrite nth_upd_other by auto. eapply nth_upd_same; eauto.
+    + apply nth_upd_inv in Hj. destruct Hj as [[-> ->]|[Hne2 Hj]]; [exact I|].
+      other_nonholder Hv E0 Hh.
+  - (* AReplyTrue l i *)
+    assert (Hn : i <> l) by (apply (pcs_differ (ws s) i l w0 w E0 E); congruence).
+    assert (Hh : holds w = 1) by (unfold holds; rewrite E1; reflexivity).
+    pose proof (HP l w E) as Hlo; rewrite E1 in Hlo; cbn [lead_ok] in Hlo. destruct Hlo as [Hb (wx & Hx & Hpx)].
+    assert (Hr : replydue w = 1).
+    { unfold replydue. rewrite E1. simpl. pose proof (Forall_nth _ _ _ _ (inv_wf s Hv) E) as Hw.
+      unfold wf_writer in Hw. rewrite E1 in Hw. destruct Hw as [Ho _]. unfold ctx_over. rewrite Ho. reflexivity. }
+    assert (i = x) by (eapply (two_waiting_same s l w i x); eauto). subst x.
+    intros j wj Hj. apply nth_upd_inv in Hj. destruct Hj as [[-> ->]|[Hne Hj]].
+    + cbn [pc set_pc lead_ok after_reply lbatches lreplied]. exact Hb.
+    + apply nth_upd_inv in Hj. destruct Hj as [[-> ->]|[Hne2 Hj]]; [exact I|].
+      other_nonholder Hv E Hh.
+  - (* AAck l i *)
+    assert (Hn : i <> l) by (apply (pcs_differ (ws s) i l w0 w E0 E); congruence).
+    assert (Hh : holds w = 1) by (unfold holds; rewrite E1; reflexivity).
+    intros j wj Hj. apply nth_upd_inv in Hj. destruct Hj as [[-> ->]|[Hne Hj]]; [exact I|].
+    apply nth_upd_inv in Hj. destruct Hj as [[-> ->]|[Hne2 Hj]]; [exact I|].
+    other_nonholder Hv E Hh.
+  - (* AHandover l o *)
+    assert (Hn : o <> l) by (apply (pcs_differ (ws s) o l w0 w E0 E); congruence).
+    assert (Hh : holds w = 1) by (unfold holds; rewrite E1; reflexivity).
+    intros j wj Hj. apply nth_upd_inv in Hj. destruct Hj as [[-> ->]|[Hne Hj]]; [exact I|].
+    apply nth_upd_inv in Hj. destruct Hj as [[-> ->]|[Hne2 Hj]]; [exact I|].
+    other_nonholder Hv E Hh.
+Qed.
+
+End Composition.
+
+Section Composition2.
+Variable mp : mparams.
+
+Lemma P2_init n : P2 (ws (init n)).
+Proof.
+  intros l wl H. simpl in H. apply nth_error_In in H. apply repeat_spec in H. subst. exact I.
+Qed.
+
+Lemma run_P2 l : forall s s', inv s -> P2 (ws s) -> Forall jok (jlog s) -> run mp s l = Some s' ->
+  P2 (ws s') /\ Forall jok (jlog s').
+Proof.
+  induction l; simpl; intros s s' Hi HP HJ H.
+  - inversion H; subst; auto.
+  - destruct (step mp s a) eqn:E; try discriminate.
+    destruct (step_P2 mp _ _ _ Hi HP HJ E) as [HP' HJ'].
+    eapply IHl; [| | |eauto]; auto. eapply step_inv; eauto.
+Qed.
+
+(* group_atomic, part 1: every journal record written (or attempted) by a leader holds the
+   leader's batch followed by exactly the batches of the writers that received `true` from it,
+   in that order *)
+Theorem journal_composition n s r : reachable mp n s -> In r (jlog s) ->
+  j_batches r = j_leader r :: j_replied r.
+Proof.
+  intros [l H] Hin.
+  destruct (run_P2 l _ _ (inv_init n) (P2_init n) (Forall_nil _) H) as [_ HJ].
+  rewrite Forall_forall in HJ. apply (HJ r Hin).
+Qed.
+
+(* the writer the leader is about to answer `true` is the one whose batch it has just appended *)
+Theorem reply_goes_to_requester n s l wl c x i s' : reachable mp n s ->
+  nth_error (ws s) l = Some wl -> pc wl = WLReply c x -> step mp s (AReplyTrue l i) = Some s' -> i = x.
+Proof.
+  intros R Hl Hp Hs. pose proof (reachable_inv mp n s R) as Hv. destruct R as [acts H].
+  destruct (run_P2 acts _ _ (inv_init n) (P2_init n) (Forall_nil _) H) as [HP _].
+  pose proof (HP l wl Hl) as Hlo. rewrite Hp in Hlo. destruct Hlo as [_ (wx & Hx & Hpx)].
+  unfold step, getw in Hs. rewrite Hl, Hp in Hs. destruct (nth_error (ws s) i) eqn:Ei; try discriminate.
+  destruct (pc w) eqn:Ep; try discriminate.
+  assert (Hh : holds wl = 1) by (unfold holds; rewrite Hp; reflexivity).
+  assert (Hr : replydue wl = 1).
+  { unfold replydue. rewrite Hp. simpl. pose proof (Forall_nth _ _ _ _ (inv_wf s Hv) Hl) as Hw.
+    unfold wf_writer in Hw. rewrite Hp in Hw. destruct Hw as [Ho _]. unfold ctx_over. rewrite Ho. reflexivity. }
+  eapply (two_waiting_same s l wl i x); eauto.
+Qed.
+
+End Composition2.
+
+(* ------------------------------------------------------------------ results: at most one per call, exactly one at the end *)
+
+Definition cnt (i : nat) (r : list (nat * res)) : nat := count_occ Nat.eq_dec (map fst r) i.
+Definition doneb (p : wpc) : nat := match p with WDone _ => 1 | _ => 0 end.
+
+(* the return log holds exactly the calls that are in WDone, once, with their result *)
+Definition R1 (s : state) : Prop :=
+  forall i w, nth_error (ws s) i = Some w ->
+    cnt i (rlog s) = doneb (pc w) /\ (forall e, In (i, e) (rlog s) -> pc w = WDone e).
+
+Lemma cnt_app i r1 r2 : cnt i (r1 ++ r2) = cnt i r1 + cnt i r2.
+Proof. unfold cnt. rewrite map_app, count_occ_app. reflexivity. Qed.
+
+Section Results.
+Variable mp : mparams.
+
+Lemma R1_upd1 s i w w' r : R1 s -> nth_error (ws s) i = Some w ->
+  doneb (pc w) = 0 -> doneb (pc w') = 0 ->
+  (forall j v, nth_error (upd (ws s) i w') j = Some v ->
+      cnt j r = cnt j (rlog s) /\ (forall e, In (j, e) r -> In (j, e) (rlog s))) ->
+  forall j v, nth_error (upd (ws s) i w') j = Some v -> cnt j r = doneb (pc v) /\ (forall e, In (j, e) r -> pc v = WDone e).
+Proof.
+  intros HR Hi H0 H0' Hsame j v Hj. destruct (Hsame j v Hj) as [Hc Hin]. rewrite Hc.
+  apply nth_upd_inv in Hj. destruct Hj as [[-> ->]|[Hne Hj]].
+  - destruct (HR i w Hi) as [Hc' Hin']. split; [congruence|].
+    intros e He. apply Hin in He. apply Hin' in He. rewrite He in H0. discriminate.
+  - destruct (HR j v Hj) as [Hc' Hin']. split; auto.
+Qed.
+
+Lemma step_R1 s a s' : R1 s -> step mp s a = Some s' -> R1 s'.
+Proof.
+  intros HR H.
+  destruct a; unfold step, getw in H; dm; inversion H; subst; clear H; unfold R1;
+    cbn [ws rlog setw with_ws with_lock with_env with_logs]; try exact HR.
+  (* single updates that keep the log *)
+  all: try (eapply R1_upd1; eauto; try (rewrite ?E0, ?E1, ?E2; reflexivity);
+            try (cbn [pc set_pc]; repeat match goal with |- context [if ?b then _ else _] => destruct b end; reflexivity);
+            intros; split; auto).
+  - (* ASelMerge *)
+    intros j v Hj. apply nth_upd_inv in Hj. destruct Hj as [[-> ->]|[Hne Hj]].
+    + destruct (HR l w0 E0) as [Hc Hin]. rewrite E2 in *. cbn [pc set_pc]. unfold merge_decide.
+      destruct (llim c <? wsize w)%N; split; auto; intros e He; apply Hin in He; discriminate.
+    + apply nth_upd_inv in Hj. destruct Hj as [[-> ->]|[Hne2 Hj]]; [|apply HR; auto].
+      destruct (HR i w E) as [Hc Hin]. rewrite E1 in *. split; auto. intros e He; apply Hin in He; discriminate.
+  - (* AReplyTrue *)
+    intros j v Hj. apply nth_upd_inv in Hj. destruct Hj as [[-> ->]|[Hne Hj]].
+    + destruct (HR l w E) as [Hc Hin]. rewrite E1 in *. split; auto. intros e He; apply Hin in He; discriminate.
+    + apply nth_upd_inv in Hj. destruct Hj as [[-> ->]|[Hne2 Hj]]; [|apply HR; auto].
+      destruct (HR i w0 E0) as [Hc Hin]. rewrite E2 in *. split; auto. intros e He; apply Hin in He; discriminate.
+  - (* AAck *)
+    intros j v Hj. apply nth_upd_inv in Hj. destruct Hj as [[-> ->]|[Hne Hj]].
+    + destruct (HR l w E) as [Hc Hin]. rewrite E1 in *. split; auto. intros e' He; apply Hin in He; discriminate.
+    + apply nth_upd_inv in Hj. destruct Hj as [[-> ->]|[Hne2 Hj]]; [|apply HR; auto].
+      destruct (HR i w0 E0) as [Hc Hin]. rewrite E2 in *. split; auto. intros e' He; apply Hin in He; discriminate.
+  - (* AHandover *)
+    intros j v Hj. apply nth_upd_inv in Hj. destruct Hj as [[-> ->]|[Hne Hj]].
+    + destruct (HR l w E) as [Hc Hin]. rewrite E1 in *. split; auto. intros e' He; apply Hin in He; discriminate.
+    + apply nth_upd_inv in Hj. destruct Hj as [[-> ->]|[Hne2 Hj]]; [|apply HR; auto].
+      destruct (HR o w0 E0) as [Hc Hin]. rewrite E2 in *. split; auto. intros e' He; apply Hin in He; discriminate.
+  - (* AReturn i *)
+    intros j v Hj. rewrite cnt_app. unfold cnt at 2. cbn [map fst count_occ].
+    apply nth_upd_inv in Hj. destruct Hj as [[-> ->]|[Hne Hj]].
+    + destruct (HR i w E) as [Hc Hin]. rewrite E0 in *. cbn [doneb] in Hc. rewrite Hc.
+      destruct (Nat.eq_dec i i); [|congruence]. split; auto.
+      intros e' He. apply in_app_or in He. destruct He as [He|[He|[]]].
+      * apply Hin in He. discriminate.
+      * inversion He; subst. reflexivity.
+    + destruct (HR j v Hj) as [Hc Hin]. destruct (Nat.eq_dec i j); [congruence|]. split; [lia|].
+      intros e' He. apply in_app_or in He. destruct He as [He|[He|[]]]; auto. inversion He; congruence.
+Qed.
+
+Lemma R1_init n : R1 (init n).
+Proof.
+  intros i w H. simpl in H. apply nth_error_In in H. apply repeat_spec in H. subst. split; auto. intros e [].
+Qed.
+
+Lemma run_R1 l : forall s s', R1 s -> run mp s l = Some s' -> R1 s'.
+Proof.
+  induction l; simpl; intros s s' HR H.
+  - inversion H; subst; auto.
+  - destruct (step mp s a) eqn:E; try discriminate. eapply IHl; [|eauto]. eapply step_R1; eauto.
+Qed.
+
+(* exactly_one_result, part 1: no call is answered twice; a call is answered iff it is in WDone, and
+   its logged result is the one it returned; so when the run is over every started call has exactly one *)
+Theorem one_result n s i w : reachable mp n s -> nth_error (ws s) i = Some w ->
+  cnt i (rlog s) <= 1 /\
+  (cnt i (rlog s) = 1 <-> exists e, pc w = WDone e) /\
+  (forall e, In (i, e) (rlog s) -> pc w = WDone e).
+Proof.
+  intros [l H] Hi. pose proof (run_R1 l _ _ (R1_init n) H) as HR. destruct (HR i w Hi) as [Hc Hin].
+  rewrite Hc. split; [destruct (pc w); simpl; lia|]. split; auto.
+  split; [destruct (pc w); simpl; intros; try discriminate; eauto | intros [e ->]; reflexivity].
+Qed.
+
+End Results.
+
+(* ------------------------------------------------------------------ a merged writer's result is its group's *)
+
+Lemma NoDup_app_single {A} (l : list A) x : NoDup l -> ~ In x l -> NoDup (l ++ [x]).
+Proof.
+  induction l; simpl; intros Hn Hx.
+  - constructor; auto.
+  - inversion Hn; subst. constructor.
+    + intros Hin. apply in_app_or in Hin. destruct Hin as [Hin|[<-|[]]]; auto.
+    + apply IHl; auto.
+Qed.
+
+(* the result of the group led by l is e: l is in unlockWrite(.., e), or its finished group says e *)
+Definition group_res (L : list writer) (G : list grec) (l : nat) (e : res) : Prop :=
+  (exists wl c k, nth_error L l = Some wl /\ pc wl = WLUnlock c k e) \/
+  (exists g, In g G /\ g_leader g = l /\ g_res g = e).
+
+Definition member_ok (L : list writer) (G : list grec) (w : writer) : Prop :=
+  match wgroup w with
+  | None => pc w <> WWaitAck
+  | Some l =>
+      match pc w with
+      | WWaitAck => exists wl, nth_error L l = Some wl /\ holds wl = 1
+      | WRet e | WDone e => group_res L G l e
+      | _ => False
+      end
+  end.
+
+Record rinv (L : list writer) (G : list grec) : Prop := {
+  r_members : forall i w, nth_error L i = Some w -> member_ok L G w;
+  r_leaders : forall g, In g G -> exists wl, nth_error L (g_leader g) = Some wl /\
+                                   (pc wl = WRet (g_res g) \/ pc wl = WDone (g_res g));
+  r_nodup : NoDup (map g_leader G)
+}.
+
+Lemma rinv_single L G i w w' : rinv L G -> nth_error L i = Some w ->
+  (holdsp (pc w) = 1 -> holdsp (pc w') = 1) ->
+  (forall c k e, pc w = WLUnlock c k e -> exists c' k', pc w' = WLUnlock c' k' e) ->
+  (forall e, pc w = WRet e \/ pc w = WDone e -> pc w' = WRet e \/ pc w' = WDone e) ->
+  member_ok (upd L i w') G w' ->
+  rinv (upd L i w') G.
+Proof.
+  intros [HM HL HN] Hi Hh Hu Hr Hnew. constructor; auto.
+  - intros j v Hj. apply nth_upd_inv in Hj. destruct Hj as [[-> ->]|[Hne Hj]]; auto.
+    pose proof (HM j v Hj) as Hv. unfold member_ok in *. destruct (wgroup v) as [l|]; auto.
+    assert (Hg : forall e, group_res L G l e -> group_res (upd L i w') G l e).
+    { intros e [(wl & c & k & Hl & Hp)|Hg]; [|right; auto]. left.
+      destruct (Nat.eq_dec l i) as [->|Hn].
+      - rewrite Hi in Hl. inversion Hl; subst. destruct (Hu _ _ _ Hp) as (c' & k' & Hp').
+        exists w', c', k'. split; auto. eapply nth_upd_same; eauto.
+      - exists wl, c, k. rewrite nth_upd_other; auto. }
+    destruct (pc v); auto.
+    destruct Hv as (wl & Hl & H1). destruct (Nat.eq_dec l i) as [->|Hn].
+    + rewrite Hi in Hl. inversion Hl; subst. exists w'. split; [eapply nth_upd_same; eauto|].
+      unfold holds in *. auto.
+    + exists wl. rewrite nth_upd_other; auto.
+  - intros g Hg. destruct (HL g Hg) as (wl & Hl & Hp). destruct (Nat.eq_dec (g_leader g) i) as [Heq|Hn].
+    + rewrite Heq in *. rewrite Hi in Hl. inversion Hl; subst. exists w'. split; [eapply nth_upd_same; eauto|auto].
+    + exists wl. rewrite nth_upd_other; auto.
+Qed.
+
+(* the leader leaves unlockWrite: its group is finished *)
+Lemma rinv_finish L G l wl c k e g : rinv L G -> nth_error L l = Some wl -> pc wl = WLUnlock c k e ->
+  g_leader g = l -> g_res g = e ->
+  (forall j v, nth_error L j = Some v -> pc v <> WWaitAck) ->
+  rinv (upd L l (set_pc wl (WRet e))) (G ++ [g]).
+Proof.
+  intros [HM HL HN] Hl Hp Hgl Hge Hnw.
+  assert (Hnot : ~ In l (map g_leader G)).
+  { intros Hin. apply in_map_iff in Hin. destruct Hin as (g' & Hg' & Hin). destruct (HL g' Hin) as (w' & Hw' & Hpw).
+    rewrite Hg' in Hw'. rewrite Hl in Hw'. inversion Hw'; subst. rewrite Hp in Hpw. destruct Hpw; discriminate. }
+  constructor.
+  - intros j v Hj. apply nth_upd_inv in Hj. destruct Hj as [[-> ->]|[Hne Hj]].
+    + pose proof (HM l wl Hl) as Hv. unfold member_ok in *. cbn [wgroup set_pc pc]. rewrite Hp in Hv.
+      destruct (wgroup wl); [contradiction|discriminate].
+    + pose proof (HM j v Hj) as Hv. pose proof (Hnw j v Hj) as Hna. unfold member_ok in *.
+      destruct (wgroup v) as [l'|]; auto.
+      assert (Hg : forall e', group_res L G l' e' -> group_res (upd L l (set_pc wl (WRet e))) (G ++ [g]) l' e').
+      { intros e' [(wl' & c' & k' & Hl' & Hp')|(g' & Hin & Hgl' & Hge')].
+        - destruct (Nat.eq_dec l' l) as [->|Hn].
+          + rewrite Hl in Hl'. inversion Hl'; subst. rewrite Hp in Hp'. inversion Hp'; subst.
+            right. exists g. split; [apply in_or_app; right; left; reflexivity|auto].
+          + left. exists wl', c', k'. rewrite nth_upd_other; auto.
+        - right. exists g'. split; [apply in_or_app; auto|auto]. }
+      destruct (pc v); auto. congruence.
+  - intros g' Hin. apply in_app_or in Hin. destruct Hin as [Hin|[<-|[]]].
+    + destruct (HL g' Hin) as (w' & Hw' & Hpw). assert (g_leader g' <> l).
+      { intros Heq. apply Hnot. apply in_map_iff. exists g'. auto. }
+      exists w'. rewrite nth_upd_other; auto.
+    + rewrite Hgl, Hge. exists (set_pc wl (WRet e)). split; [eapply nth_upd_same; eauto|left; reflexivity].
+  - rewrite map_app. cbn [map]. rewrite Hgl. apply NoDup_app_single; auto.
+Qed.
+
+Lemma group_res_upd L G l e i w w' : group_res L G l e -> nth_error L i = Some w ->
+  (forall c k e', pc w <> WLUnlock c k e') -> group_res (upd L i w') G l e.
+Proof.
+  intros [(wl & c & k & Hl & Hp)|Hg] Hi Hn; [|right; auto]. left.
+  assert (l <> i) by (intros ->; rewrite Hi in Hl; inversion Hl; subst; eapply Hn; eauto).
+  exists wl, c, k. rewrite nth_upd_other; auto.
+Qed.
+
+Lemma no_waitack s : sumf waitack (ws s) = 0 -> forall j v, nth_error (ws s) j = Some v -> pc v <> WWaitAck.
+Proof.
+  intros H0 j v Hj Hp. pose proof (sumf_ge waitack _ _ _ Hj) as Hge. unfold waitack in Hge at 1.
+  rewrite Hp in Hge. simpl in Hge. lia.
+Qed.
+
+Section MemberResults.
+Variable mp : mparams.
+
+Ltac old_member HM E :=
+  let Hm := fresh "Hm" in
+  pose proof (HM _ _ E) as Hm; unfold member_ok in Hm |- *; cbn [wgroup set_pc pc] in *.
+
+Lemma step_rinv s a s' : inv s -> rinv (ws s) (glog s) -> step mp s a = Some s' -> rinv (ws s') (glog s').
+Proof.
+  intros Hv HR H. pose proof (r_members _ _ HR) as HM.
+  destruct a; unfold step, getw in H; dm; inversion H; subst; clear H;
+    cbn [ws glog setw with_ws with_lock with_env with_logs]; try exact HR.
+  (* single updates with an unchanged group log, starting outside WLUnlock / WRet *)
+  all: try (match goal with
+            | E : nth_error (ws ?s0) ?i = Some ?w |- rinv (upd (ws ?s0) ?i ?w') _ =>
+              apply (rinv_single _ _ i w w' HR E);
+              [ rewrite ?E0, ?E1; cbn [pc set_pc holdsp];
+                repeat match goal with |- context [if ?b then _ else _] => destruct b end; cbn [holdsp]; auto; discriminate
+              | intros ? ? ? Hx; rewrite ?E0, ?E1 in Hx; discriminate
+              | intros ? [Hx|Hx]; rewrite ?E0, ?E1 in Hx; discriminate
+              | old_member HM E; rewrite ?E0, ?E1 in *;
+                repeat match goal with |- context [if ?b then _ else _] => destruct b end;
+                try discriminate;
+                destruct (wgroup w); try contradiction; try discriminate ]
+            end).
+  - (* ASelMerge i l *)
+    assert (Hn : i <> l) by (apply (pcs_differ (ws s) i l w w0 E E0); congruence).
+    assert (HR1 : rinv (upd (ws s) i (set_pc w WWaitMerged)) (glog s)).
+    { apply (rinv_single _ _ i w _ HR E).
+      - rewrite E1; discriminate.
+      - intros ? ? ? Hx; rewrite E1 in Hx; discriminate.
+      - intros ? [Hx|Hx]; rewrite E1 in Hx; discriminate.
+      - old_member HM E. rewrite E1 in *. destruct (wgroup w); [contradiction|discriminate]. }
+    eapply (rinv_single _ _ l w0 _ HR1).
+    + rewrite nth_upd_other; eauto.
+    + intros _. unfold merge_decide. destruct (llim c <? wsize w)%N; reflexivity.
+    + intros ? ? ? Hx; rewrite E2 in Hx; discriminate.
+    + intros ? [Hx|Hx]; rewrite E2 in Hx; discriminate.
+    + old_member HM E0. rewrite E2 in *. unfold merge_decide.
+      destruct (wgroup w0); [contradiction|]. destruct (llim c <? wsize w)%N; discriminate.
+  - (* AReplyTrue l i *)
+    assert (Hn : i <> l) by (apply (pcs_differ (ws s) i l w0 w E0 E); congruence).
+    assert (Hh : holds w = 1) by (unfold holds; rewrite E1; reflexivity).
+    match goal with |- rinv (upd (upd _ _ ?wi) _ _) _ => set (wi' := wi) end.
+    assert (HR1 : rinv (upd (ws s) i wi') (glog s)).
+    { apply (rinv_single _ _ i w0 _ HR E0).
+      - rewrite E2; discriminate.
+      - intros ? ? ? Hx; rewrite E2 in Hx; discriminate.
+      - intros ? [Hx|Hx]; rewrite E2 in Hx; discriminate.
+      - unfold member_ok, wi'. cbn [wgroup pc]. exists w. rewrite nth_upd_other; auto. }
+    eapply (rinv_single _ _ l w _ HR1).
+    + rewrite nth_upd_other; eauto.
+    + intros _; reflexivity.
+    + intros ? ? ? Hx; rewrite E1 in Hx; discriminate.
+    + intros ? [Hx|Hx]; rewrite E1 in Hx; discriminate.
+    + old_member HM E. rewrite E1 in *. destruct (wgroup w); [contradiction|discriminate].
+  - (* AAck l i *)
+    assert (Hn : i <> l) by (apply (pcs_differ (ws s) i l w0 w E0 E); congruence).
+    assert (Hh : holds w = 1) by (unfold holds; rewrite E1; reflexivity).
+    assert (HR1 : rinv (upd (ws s) i (set_pc w0 (WRet e))) (glog s)).
+    { apply (rinv_single _ _ i w0 _ HR E0).
+      - rewrite E2; discriminate.
+      - intros ? ? ? Hx; rewrite E2 in Hx; discriminate.
+      - intros ? [Hx|Hx]; rewrite E2 in Hx; discriminate.
+      - old_member HM E0. rewrite E2 in *. destruct (wgroup w0) as [l'|]; [|congruence].
+        destruct Hm as (wl' & Hl' & H1').
+        assert (l' = l).
+        { destruct (Nat.eq_dec l' l); auto. exfalso.
+          destruct (only_leader s l w Hv E Hh) as [Ho _]. rewrite (Ho l' wl') in H1'; auto. discriminate. }
+        subst l'. left. exists w, c, i0. rewrite nth_upd_other; auto. }
+    eapply (rinv_single _ _ l w _ HR1).
+    + rewrite nth_upd_other; eauto.
+    + intros _; reflexivity.
+    + intros ? ? ? Hx; rewrite E1 in Hx; inversion Hx; subst. eexists; eexists; reflexivity.
+    + intros ? [Hx|Hx]; rewrite E1 in Hx; discriminate.
+    + old_member HM E. rewrite E1 in *. destruct (wgroup w); [contradiction|discriminate].
+  - (* AHandover l o *)
+    assert (Hn : o <> l) by (apply (pcs_differ (ws s) o l w0 w E0 E); congruence).
+    assert (Hh : holds w = 1) by (unfold holds; rewrite E1; reflexivity).
+    destruct (leader_sums s l w Hv E Hh) as [_ Ha]. unfold ackdue in Ha. rewrite E1 in Ha. cbn [ackduep] in Ha.
+    apply Nat.ltb_ge in E3.
+    assert (HR1 : rinv (upd (ws s) o (set_pc w0 WLFlush)) (glog s)).
+    { apply (rinv_single _ _ o w0 _ HR E0).
+      - intros _; reflexivity.
+      - intros ? ? ? Hx; rewrite E2 in Hx; discriminate.
+      - intros ? [Hx|Hx]; rewrite E2 in Hx; discriminate.
+      - old_member HM E0. rewrite E2 in *. destruct (wgroup w0); [contradiction|discriminate]. }
+    eapply rinv_finish; eauto.
+    + rewrite nth_upd_other; eauto.
+    + intros j v Hj. apply nth_upd_inv in Hj. destruct Hj as [[-> ->]|[Hne Hj]]; [discriminate|].
+      eapply no_waitack; eauto. lia.
+  - (* ARelease l *)
+    assert (Hh : holds w = 1) by (unfold holds; rewrite E0; reflexivity).
+    destruct (leader_sums s l w Hv E Hh) as [_ Ha]. unfold ackdue in Ha. rewrite E0 in Ha. cbn [ackduep] in Ha.
+    apply Nat.ltb_ge in E1.
+    eapply rinv_finish; eauto. eapply no_waitack; eauto. lia.
+  - (* AReturn i *)
+    apply (rinv_single _ _ i w _ HR E).
+    + rewrite E0; discriminate.
+    + intros ? ? ? Hx; rewrite E0 in Hx; discriminate.
+    + intros e' [Hx|Hx]; rewrite E0 in Hx; inversion Hx; subst. right; reflexivity.
+    + old_member HM E. rewrite E0 in *. destruct (wgroup w); [|discriminate].
+      eapply group_res_upd; eauto. intros ? ? ? Hx; rewrite E0 in Hx; discriminate.
+Qed.
+
+Lemma rinv_init n : rinv (ws (init n)) (glog (init n)).
+Proof.
+  constructor; simpl.
+  - intros i w H. apply nth_error_In in H. apply repeat_spec in H. subst. unfold member_ok; simpl. discriminate.
+  - intros g [].
+  - constructor.
+Qed.
+
+Lemma run_rinv l : forall s s', inv s -> rinv (ws s) (glog s) -> run mp s l = Some s' -> rinv (ws s') (glog s').
+Proof.
+  induction l; simpl; intros s s' Hi HR H.
+  - inversion H; subst; auto.
+  - destruct (step mp s a) eqn:E; try discriminate. eapply IHl; [| |eauto].
+    + eapply step_inv; eauto.
+    + eapply step_rinv; eauto.
+Qed.
+
+Lemma reachable_rinv n s : reachable mp n s -> rinv (ws s) (glog s).
+Proof. intros [l H]. eapply run_rinv; [apply inv_init|apply rinv_init|eauto]. Qed.
+
+(* exactly_one_result, part 2: a writer that was told `true` by leader l and has got its result got
+   the result of l's group *)
+Theorem merged_result_is_groups n s i w l e : reachable mp n s ->
+  nth_error (ws s) i = Some w -> wgroup w = Some l -> (pc w = WRet e \/ pc w = WDone e) ->
+  group_res (ws s) (glog s) l e.
+Proof.
+  intros R Hi Hg Hp. pose proof (r_members _ _ (reachable_rinv n s R) i w Hi) as Hm.
+  unfold member_ok in Hm. rewrite Hg in Hm. destruct Hp as [Hp|Hp]; rewrite Hp in Hm; exact Hm.
+Qed.
+
+(* the leader of a finished group returns that group's result *)
+Theorem leader_result_is_groups n s g : reachable mp n s -> In g (glog s) ->
+  exists wl, nth_error (ws s) (g_leader g) = Some wl /\ (pc wl = WRet (g_res g) \/ pc wl = WDone (g_res g)).
+Proof. intros R Hin. apply (r_leaders _ _ (reachable_rinv n s R) g Hin). Qed.
+
+(* and "the group's result" is well defined: one finished group per leader, and none while it is
+   still in unlockWrite *)
+Theorem group_res_unique n s l e e' : reachable mp n s ->
+  group_res (ws s) (glog s) l e -> group_res (ws s) (glog s) l e' -> e = e'.
+Proof.
+  intros R H1 H2. pose proof (reachable_rinv n s R) as [HM HL HN].
+  assert (Hex : forall wl c k e0 g, nth_error (ws s) l = Some wl -> pc wl = WLUnlock c k e0 ->
+                  In g (glog s) -> g_leader g = l -> False).
+  { intros wl c k e0 g Hl Hp Hin Hgl. destruct (HL g Hin) as (w' & Hw' & Hpw). rewrite Hgl, Hl in Hw'.
+    inversion Hw'; subst. rewrite Hp in Hpw. destruct Hpw; discriminate. }
+  destruct H1 as [(wl & c & k & Hl & Hp)|(g & Hin & Hgl & Hge)];
+  destruct H2 as [(wl' & c' & k' & Hl' & Hp')|(g' & Hin' & Hgl' & Hge')].
+  - rewrite Hl in Hl'. inversion Hl'; subst. rewrite Hp in Hp'. inversion Hp'; auto.
+  - exfalso. eapply Hex; eauto.
+  - exfalso. eapply Hex; eauto.
+  - assert (g = g'); [|subst; congruence].
+    clear -HN Hin Hin' Hgl Hgl'. induction (glog s); simpl in *; [contradiction|].
+    inversion HN; subst. destruct Hin as [->|Hin]; destruct Hin' as [->|Hin']; auto.
+    all: exfalso; match goal with Hx : ~ In _ _ |- _ => apply Hx end; apply in_map_iff;
+      eexists; split; [|eassumption]; congruence.
+Qed.
+
+End MemberResults.
+
+(* ------------------------------------------------------------------ one publication per journalled group *)
+
+Definition pendp (p : wpc) : bool := match p with WLApply _ | WLPublish _ => true | _ => false end.
+
+(* leaders that have journalled their group and not yet published the sequence number *)
+Fixpoint pend_from (k : nat) (L : list writer) : list nat :=
+  match L with
+  | [] => []
+  | w :: t => (if pendp (pc w) then [k] else []) ++ pend_from (S k) t
+  end.
+
+Definition ok_leaders (j : list jrecd) : list nat := map j_leader (filter j_ok j).
+
+Lemma pend_upd_same L : forall k i w w', nth_error L i = Some w -> pendp (pc w) = pendp (pc w') ->
+  pend_from k (upd L i w') = pend_from k L.
+Proof.
+  induction L; intros k i w w' Hi Hp; destruct i; simpl in *; try discriminate.
+  - inversion Hi; subst. rewrite Hp. reflexivity.
+  - rewrite (IHL _ _ _ _ Hi Hp). reflexivity.
+Qed.
+
+Lemma pend_none L : forall k, (forall j v, nth_error L j = Some v -> pendp (pc v) = false) -> pend_from k L = [].
+Proof.
+  induction L; intros k H; simpl; auto. rewrite (H 0 a eq_refl). simpl. apply IHL.
+  intros j v Hj. apply (H (S j) v Hj).
+Qed.
+
+Lemma pend_single L : forall k l w, nth_error L l = Some w -> pendp (pc w) = true ->
+  (forall j v, j <> l -> nth_error L j = Some v -> pendp (pc v) = false) -> pend_from k L = [k + l].
+Proof.
+  induction L; intros k l w Hl Hp Ho; destruct l; simpl in *; try discriminate.
+  - inversion Hl; subst. rewrite Hp. rewrite pend_none; [rewrite Nat.add_0_r; reflexivity|].
+    intros j v Hj. apply (Ho (S j) v); [discriminate|exact Hj].
+  - rewrite (Ho 0 a); [|discriminate|reflexivity]. simpl.
+    rewrite (IHL (S k) l w Hl Hp); [f_equal; lia|]. intros j v Hn Hj. apply (Ho (S j) v); [congruence|exact Hj].
+Qed.
+
+Lemma pendp_holds p : pendp p = true -> holdsp p = 1.
+Proof. destruct p; simpl; auto; discriminate. Qed.
+
+Lemma nonholder_not_pend p : holdsp p = 0 -> pendp p = false.
+Proof. destruct p; simpl; auto; discriminate. Qed.
+
+Section Publish.
+Variable mp : mparams.
+
+Definition pub_inv (s : state) : Prop := ok_leaders (jlog s) = plog s ++ pend_from 0 (ws s).
+
+Lemma ok_leaders_app j r : ok_leaders (j ++ [r]) = ok_leaders j ++ (if j_ok r then [j_leader r] else []).
+Proof. unfold ok_leaders. rewrite filter_app, map_app. simpl. destruct (j_ok r); reflexivity. Qed.
+
+Lemma step_pub s a s' : inv s -> pub_inv s -> step mp s a = Some s' -> pub_inv s'.
+Proof.
+  intros Hv HP H. unfold pub_inv in *.
+  destruct a; unfold step, getw in H; dm; inversion H; subst; clear H;
+    cbn [ws jlog plog setw with_ws with_lock with_env with_logs]; try exact HP.
+  (* updates that do not change who is between journal and publish *)
+  all: try (rewrite (pend_upd_same _ _ _ _ _ E) by
+              (rewrite ?E0, ?E1; cbn [pc set_pc pendp];
+               repeat match goal with |- context [if ?b then _ else _] => destruct b end; reflexivity);
+            exact HP).
+  (* AJournalFail *)
+  all: try (rewrite ok_leaders_app; cbn [j_ok]; rewrite app_nil_r;
+            rewrite (pend_upd_same _ _ _ _ _ E); [exact HP | rewrite E0; reflexivity]).
+  - (* ASelMerge *)
+    assert (Hn : i <> l) by (apply (pcs_differ (ws s) i l w w0 E E0); congruence).
+    rewrite (pend_upd_same _ _ l w0); [| rewrite nth_upd_other; eauto |].
+    + rewrite (pend_upd_same _ _ _ _ _ E); [exact HP | rewrite E1; reflexivity].
+    + rewrite E2. cbn [pc set_pc]. unfold merge_decide. destruct (llim c <? wsize w)%N; reflexivity.
+  - (* AReplyTrue *)
+    assert (Hn : i <> l) by (apply (pcs_differ (ws s) i l w0 w E0 E); congruence).
+    rewrite (pend_upd_same _ _ l w); [| rewrite nth_upd_other; eauto | rewrite E1; reflexivity].
+    rewrite (pend_upd_same _ _ _ _ _ E0); [exact HP | rewrite E2; reflexivity].
+  - (* AJournalOk l *)
+    assert (Hh : holds w = 1) by (unfold holds; rewrite E0; reflexivity).
+    destruct (only_leader s l w Hv E Hh) as [Ho _].
+    rewrite ok_leaders_app. cbn [j_ok j_leader]. rewrite HP.
+    rewrite (pend_none (ws s)).
+    2:{ intros j v Hj. destruct (Nat.eq_dec j l) as [->|Hne].
+        - rewrite E in Hj. inversion Hj; subst. rewrite E0. reflexivity.
+        - apply nonholder_not_pend. apply (Ho j v Hne Hj). }
+    rewrite (pend_single _ 0 l (set_pc w (WLApply c))); [rewrite app_nil_r; reflexivity | eapply nth_upd_same; eauto | reflexivity |].
+    intros j v Hne Hj. rewrite nth_upd_other in Hj by auto. apply nonholder_not_pend. apply (Ho j v Hne Hj).
+  - (* APublish l *)
+    assert (Hh : holds w = 1) by (unfold holds; rewrite E0; reflexivity).
+    destruct (only_leader s l w Hv E Hh) as [Ho _].
+    rewrite HP. rewrite (pend_single (ws s) 0 l w E); [| rewrite E0; reflexivity |].
+    2:{ intros j v Hne Hj. apply nonholder_not_pend. apply (Ho j v Hne Hj). }
+    rewrite (pend_none (upd (ws s) l _)); [rewrite app_nil_r; reflexivity|].
+    intros j v Hj. apply nth_upd_inv in Hj. destruct Hj as [[-> ->]|[Hne Hj]]; [reflexivity|].
+    apply nonholder_not_pend. apply (Ho j v Hne Hj).
+  - (* AAck *)
+    assert (Hn : i <> l) by (apply (pcs_differ (ws s) i l w0 w E0 E); congruence).
+    rewrite (pend_upd_same _ _ l w); [| rewrite nth_upd_other; eauto | rewrite E1; reflexivity].
+    rewrite (pend_upd_same _ _ _ _ _ E0); [exact HP | rewrite E2; reflexivity].
+  - (* AHandover *)
+    assert (Hn : o <> l) by (apply (pcs_differ (ws s) o l w0 w E0 E); congruence).
+    rewrite (pend_upd_same _ _ l w); [| rewrite nth_upd_other; eauto | rewrite E1; reflexivity].
+    rewrite (pend_upd_same _ _ _ _ _ E0); [exact HP | rewrite E2; reflexivity].
+Qed.
+
+Lemma run_pub l : forall s s', inv s -> pub_inv s -> run mp s l = Some s' -> pub_inv s'.
+Proof.
+  induction l; simpl; intros s s' Hi HP H.
+  - inversion H; subst; auto.
+  - destruct (step mp s a) eqn:E; try discriminate. eapply IHl; [| |eauto].
+    + eapply step_inv; eauto.
+    + eapply step_pub; eauto.
+Qed.
+
+(* group_atomic, part 2: the sequence number is published once per successfully journalled group, in
+   journal order; at most one group is journalled and not yet published, and it is the last one *)
+Theorem publish_once n s : reachable mp n s ->
+  ok_leaders (jlog s) = plog s ++ pend_from 0 (ws s) /\ length (pend_from 0 (ws s)) <= 1.
+Proof.
+  intros R. pose proof (reachable_inv mp n s R) as Hv. destruct R as [l H]. split.
+  - eapply run_pub; [apply inv_init| |eauto]. unfold pub_inv. simpl. rewrite pend_none; auto.
+    intros j v Hj. apply nth_error_In in Hj. apply repeat_spec in Hj. subst. reflexivity.
+  - destruct (Nat.eq_dec (sumf holds (ws s)) 0) as [H0|H0].
+    + rewrite pend_none; simpl; auto. intros j v Hj. apply nonholder_not_pend.
+      pose proof (sumf_ge holds _ _ _ Hj). unfold holds in *. lia.
+    + assert (Hpos : 0 < sumf holds (ws s)) by lia. destruct (sumf_pos holds _ Hpos) as (l0 & wl & Hl & H1).
+      assert (Hh : holds wl = 1) by (unfold holds in *; destruct (holdsp_cases (pc wl)); lia).
+      destruct (only_leader s l0 wl Hv Hl Hh) as [Ho _].
+      destruct (pendp (pc wl)) eqn:Ep.
+      * rewrite (pend_single _ 0 l0 wl Hl Ep); simpl; auto.
+        intros j v Hne Hj. apply nonholder_not_pend. apply (Ho j v Hne Hj).
+      * rewrite pend_none; simpl; auto. intros j v Hj. destruct (Nat.eq_dec j l0) as [->|Hne].
+        -- rewrite Hl in Hj. inversion Hj; subst. exact Ep.
+        -- apply nonholder_not_pend. apply (Ho j v Hne Hj).
+Qed.
+
+End Publish.
+
+(* ------------------------------------------------------------------ progress measure *)
+
+Definition rankp (p : wpc) : nat :=
+  match p with
+  | WIdle => 30 | WSelect => 28 | WWaitMerged => 20 | WLFlush => 19 | WLMerge _ => 18 | WLReply _ _ => 17
+  | WLJournal _ => 16 | WLApply _ => 15 | WLPublish _ => 14 | WLRotate _ => 13 | WLUnlock _ _ _ => 12
+  | WWaitAck => 3 | WRet _ => 1 | WDone _ => 0
+  end.
+Definition rank (w : writer) : nat := rankp (pc w).
+Definition mu (s : state) : nat := sumf rank (ws s).
+
+Definition writer_action (a : action) : bool :=
+  match a with
+  | ACloseCall | ACloseSignal | ACloseLock | ATxnAcquire | ATxnFlushOk | ATxnFlushFail | ATxnDone
+  | ACRAcquire | ACRRelease | AROAcquire | AROSend | AROAbort | AHPerr | AHLock | AHExit => false
+  | _ => true
+  end.
+
+Section Measure.
+Variable mp : mparams.
+
+(* every move of a writer strictly decreases mu; the other processes leave it unchanged: a run
+   contains at most 30 * (number of writers) writer moves *)
+Theorem progress_measure s a s' : step mp s a = Some s' ->
+  (writer_action a = true -> mu s' < mu s) /\ (writer_action a = false -> mu s' = mu s).
+Proof.
+  intros H. unfold mu.
+  destruct a; unfold step, getw in H; dm; inversion H; subst; clear H;
+    cbn [ws setw with_ws with_lock with_env with_logs writer_action];
+    (split; intros Hwa; try discriminate; try reflexivity).
+  all: unfold merge_decide in *;
+       repeat match goal with |- context [if ?b then _ else _] => destruct b end.
+  all: upd_facts; unfold rank in *;
+       repeat match goal with E : pc ?w = _ |- _ => rewrite E in * end;
+       cbn [pc set_pc rankp] in *; lia.
+Qed.
+
+Lemma mu_init n : mu (init n) = 30 * n.
+Proof.
+  unfold mu. cbn [ws init]. induction n; [reflexivity|].
+  cbn [repeat sumf]. rewrite IHn. unfold rank. cbn [pc idle_writer rankp]. lia.
+Qed.
+
+End Measure.
